@@ -1,7 +1,13 @@
 """C19 translator: facts re-derived from psutil/_pslinux.py, psutil/__init__.py, psutil/_common.py.
 
 Every fact is consumed either by `Model/C19Gen.lean` (it becomes a field of the `Cfg` the driver runs
-and the theorems are proved for) or by the proof obligation `cfg_good` in Props/C19.lean.
+and the theorems are proved for; obligation `cfg_good` in Props/C19.lean) or by `namesAsModelled` /
+`catAsModelled` there (obligations `cfg_names` / `cfg_cat`).
+
+Extractors are as TOTAL as they can be made: where the source may take another shape they return a value that
+describes the new shape (a list with other members, a rendered expression, False) so that the obligation fails
+on the new VALUE; `NotRecognised` is left for structure without which the fact has no meaning. Each fact is
+extracted on its own (`F.try_add` per fact).
 """
 import ast
 
@@ -39,12 +45,12 @@ def _try_direct(loop):
 
 
 def _caught(tr):
+    """classes of the handlers that skip the entry (their body has a `continue`); a handler that does anything
+    else (re-raise, return, fall through) contributes nothing: total"""
     out = []
     for h in tr.handlers:
-        # a handler counts as "skip the entry" only if it ends with `continue`
-        if not any(isinstance(s, ast.Continue) for s in h.body):
-            raise NotRecognised("except handler does not `continue`")
-        out += _handler_names(h)
+        if any(isinstance(s, ast.Continue) for s in h.body):
+            out += _handler_names(h)
     return out
 
 
@@ -447,6 +453,112 @@ def trip_kinds(pl):
     return out
 
 
+def battery_no_dir_none(pl):
+    """is a missing POWER_SUPPLY_PATH answered with `return None`?  Either the `os.listdir(POWER_SUPPLY_PATH)` call
+    sits in a `try` with a handler for FileNotFoundError / OSError (or wider) whose body is `return None`, or the
+    function tests `os.path.exists/isdir(POWER_SUPPLY_PATH)` and returns None before listing. Total: False otherwise."""
+    fn = _bat_fn(pl)
+    wide = {"FileNotFoundError", "OSError", "IOError", "EnvironmentError", "Exception", "BaseException"}
+
+    def returns_none(body):
+        return any(isinstance(st, ast.Return) and (st.value is None or (isinstance(st.value, ast.Constant)
+                                                                         and st.value.value is None)) for st in body)
+
+    def is_listdir(n):
+        return isinstance(n, ast.Call) and extract.dotted(n.func) == "os.listdir" and n.args \
+            and extract.dotted(n.args[0]) == "POWER_SUPPLY_PATH"
+    for t in ast.walk(fn):
+        if isinstance(t, ast.Try) and any(is_listdir(n) for st in t.body for n in ast.walk(st)):
+            for h in t.handlers:
+                if set(_handler_names(h)) & wide and returns_none(h.body):
+                    return True
+    first_list = min([n.lineno for n in ast.walk(fn) if is_listdir(n)] or [10**9])
+    for t in ast.walk(fn):
+        if isinstance(t, ast.If) and t.lineno < first_list and returns_none(t.body) \
+                and isinstance(t.test, ast.UnaryOp) and isinstance(t.test.op, ast.Not) \
+                and isinstance(t.test.operand, ast.Call) \
+                and extract.dotted(t.test.operand.func) in ("os.path.exists", "os.path.isdir") \
+                and t.test.operand.args and extract.dotted(t.test.operand.args[0]) == "POWER_SUPPLY_PATH":
+            return True
+    return False
+
+
+def _cat_try(common):
+    fn = extract.find_def(common, "cat")
+    ts = [n for n in ast.walk(fn) if isinstance(n, ast.Try)]
+    if len(ts) != 1:
+        raise NotRecognised("expected one try in _common.cat, found %d" % len(ts))
+    return fn, ts[0]
+
+
+def cat_caught(common):
+    """classes whose handler in `_common.cat` returns the fallback"""
+    _, tr = _cat_try(common)
+    out = []
+    for h in tr.handlers:
+        if any(isinstance(st, ast.Return) and extract.dotted(st.value) == "fallback" for st in h.body):
+            out += _handler_names(h)
+    return out
+
+
+def cat_try_covers_read(common):
+    """does the `try` of `_common.cat` cover BOTH the open (`_open(fname)`) and the `.read()`?"""
+    _, tr = _cat_try(common)
+    calls = [n for st in tr.body for n in ast.walk(st) if isinstance(n, ast.Call)]
+    has_open = any(extract.dotted(c.func) == "_open" for c in calls)
+    has_read = any(isinstance(c.func, ast.Attribute) and c.func.attr == "read" for c in calls)
+    bcat = extract.find_def(common, "bcat")
+    via_cat = any(isinstance(n, ast.Call) and extract.dotted(n.func) == "cat" for n in ast.walk(bcat))
+    return has_open and has_read and via_cat
+
+
+def glob_patterns(fn):
+    """every argument of a `glob.glob(...)` call in source order: the string constant, else the rendered expression"""
+    calls = [n for n in ast.walk(fn) if isinstance(n, ast.Call) and extract.dotted(n.func) == "glob.glob"]
+    calls.sort(key=lambda n: (n.lineno, n.col_offset))
+    out = []
+    for c in calls:
+        a = c.args[0] if c.args else None
+        if isinstance(a, ast.Constant) and isinstance(a.value, str):
+            out.append(a.value)
+        else:
+            out.append("<%s>" % (extract.unparse(a) if a is not None else ""))
+    return out
+
+
+def boot_time_return(pl):
+    """[expression returned in the `btime` branch, expression assigned to it] of boot_time()"""
+    fn = extract.find_def(pl, "boot_time")
+    for n in ast.walk(fn):
+        if isinstance(n, ast.If) and isinstance(n.test, ast.Call) and extract.dotted(n.test.func) == "line.startswith":
+            rets = [st for st in ast.walk(n) if isinstance(st, ast.Return)]
+            if len(rets) != 1:
+                return ["<%d returns>" % len(rets), ""]
+            name = extract.unparse(rets[0].value)
+            asg = [a for a in _assign_to(n, name)]
+            return [name, extract.unparse(asg[0].value) if len(asg) == 1 else "<%d assignments>" % len(asg)]
+    raise NotRecognised("btime branch")
+
+
+def logical_tests(pl):
+    """[test that counts a /proc/cpuinfo line, regex that counts a /proc/stat row, how the row's first field is cut]"""
+    fn = extract.find_def(pl, "cpu_count_logical")
+    tests = [extract.unparse(n.test) for n in ast.walk(fn) if isinstance(n, ast.If) and isinstance(n.test, ast.Call)
+             and "startswith" in extract.unparse(n.test)]
+    regs = [extract.const(n.args[0]) for n in ast.walk(fn) if isinstance(n, ast.Call)
+            and extract.dotted(n.func) == "re.compile" and n.args and isinstance(n.args[0], ast.Constant)]
+    cuts = [extract.unparse(a.value) for a in _assign_to(fn, "line")]
+    return tests + ["|"] + regs + ["|"] + cuts
+
+
+def cpuinfo_freq_test(pl):
+    fn = extract.find_def(pl, "_cpu_get_cpuinfo_freq")
+    for n in ast.walk(fn):
+        if isinstance(n, ast.ListComp):
+            return [extract.unparse(n.elt)] + [extract.unparse(i) for g in n.generators for i in g.ifs]
+    return ["<no list comprehension>"]
+
+
 def facts(snap, F):
     pl = extract.parse_module(snap, "_pslinux.py")
     init = extract.parse_module(snap, "__init__.py")
@@ -495,3 +607,22 @@ def facts(snap, F):
               "thermal zone: [glob suffix, separator, slice lo, hi of `SEP.join(basename(p).split(SEP)[lo:hi])`, suffix of the type file, of the temp file]")
     F.try_add("tripKinds", "List String", lambda: strs(trip_kinds(pl)),
               "trip-point loop: [constant compared with trip_type, variable assigned] per branch")
+    # round 3
+    F.try_add("batteryNoDirNone", "Bool", lambda: extract.lean_bool(battery_no_dir_none(pl)),
+              "sensors_battery(): a missing POWER_SUPPLY_PATH is answered with `return None` (listing guarded / error caught)")
+    F.try_add("catCaught", "List String", lambda: strs(cat_caught(common)),
+              "_common.cat: exception classes whose handler returns the fallback")
+    F.try_add("catTryCoversRead", "Bool", lambda: extract.lean_bool(cat_try_covers_read(common)),
+              "_common.cat: the try covers the open AND the read(); bcat goes through cat")
+    F.try_add("tempGlobs", "List String", lambda: strs(glob_patterns(_temp_fn(pl))),
+              "sensors_temperatures: arguments of glob.glob in source order (constant, else <expression>)")
+    F.try_add("fanGlobs", "List String", lambda: strs(glob_patterns(extract.find_def(pl, "sensors_fans"))),
+              "sensors_fans: arguments of glob.glob in source order")
+    F.try_add("cpufreqGlobs", "List String", lambda: strs(glob_patterns(_sysfs_cpu_freq(pl))),
+              "cpu_freq (sysfs variant): arguments of glob.glob in source order")
+    F.try_add("bootTimeReturn", "List String", lambda: strs(boot_time_return(pl)),
+              "boot_time(): [expression returned in the btime branch, what was assigned to it]")
+    F.try_add("logicalTests", "List String", lambda: strs(logical_tests(pl)),
+              "cpu_count_logical: cpuinfo line test | stat row regex | how the row's first field is cut")
+    F.try_add("cpuinfoFreqTest", "List String", lambda: strs(cpuinfo_freq_test(pl)),
+              "_cpu_get_cpuinfo_freq: [element, condition] of the list comprehension")
